@@ -152,9 +152,56 @@ def isInfix (p : Str) : Str → Bool
 def rewriteArg (k : Key) (a : Str) : Str :=
   if isInfix lockNeedle a then lockFlag ++ k.name else a
 
+/-- one iteration of `for _, arg := range dep.Spec.Template.Spec.Containers[0].Args`: the arg is matched by
+SUBSTRING (`strings.Contains(arg, "leader-election-lock-name")`), not by the prefix `--leader-election-lock-name=`;
+a match appends `"--leader-election-lock-name=" + gwNsName.Name`, anything else is appended unchanged -/
+def argStep (k : Key) (finalArgs : List Str) (arg : Str) : List Str :=
+  if isInfix lockNeedle arg then finalArgs ++ [lockFlag ++ k.name] else finalArgs ++ [arg]
+
+/-- the args of container 0 as `prepareDeployment(depYAML, id, gwNsName)` builds them, statement by statement:
+`finalArgs := []string{"--gateway=" + gwNsName.String(), "--update-gatewayclass-status=false"}`, then the loop over
+the TEMPLATE's args only (the two fresh args are not scanned). `id` is a parameter of the Go function that the
+args do not read. -/
+def prepareArgs (tmpl : List Str) (k : Key) (_id : Str) : List Str :=
+  tmpl.foldl (argStep k) [gwFlag ++ gwString k, updFlag]
+
+/-- NOT the code in the tree: the refactoring "build the whole list first, then rewrite in place every arg that
+contains the needle" (seeded change C18-r4m2) — the scan also covers the fresh `--gateway=<ns>/<name>` arg.
+Kept to be refuted (`Props.C18.scan_all_variant_loses_gateway_flag`). -/
+def prepareArgsScanAll (tmpl : List Str) (k : Key) (_id : Str) : List Str :=
+  ((gwFlag ++ gwString k) :: updFlag :: tmpl).map (rewriteArg k)
+
 def prepare (tmpl : List Str) (i : Nat) (k : Key) : Dep :=
   { name := idName i, selApp := idName i, podApp := idName i,
-    args := (gwFlag ++ gwString k) :: updFlag :: tmpl.map (rewriteArg k) }
+    args := prepareArgs tmpl k (idName i) }
+
+/-! ### names: RFC 1123 label (namespace) and subdomain (Gateway name), as `k8s.io/apimachinery/pkg/util/validation`
+`IsDNS1123Label` / `IsDNS1123Subdomain` decide them (tied by the harness stream `K`) -/
+
+def isAlnumLower (c : Char) : Bool := c.isLower || c.isDigit
+
+/-- `[a-z0-9]([-a-z0-9]*[a-z0-9])?`, at most 63 characters -/
+def dnsLabel (s : Str) : Bool :=
+  !s.isEmpty && s.length ≤ 63 && s.all (fun c => isAlnumLower c || c == '-') &&
+  (s.head?.map isAlnumLower).getD false && (s.getLast?.map isAlnumLower).getD false
+
+/-- split at every '.' -/
+def splitDots : Str → List Str
+  | [] => [[]]
+  | c :: cs =>
+    match splitDots cs with
+    | [] => [[c]]     -- unreachable
+    | p :: ps => if c == '.' then [] :: p :: ps else (c :: p) :: ps
+
+/-- labels joined by '.', at most 253 characters (each label `[a-z0-9]([-a-z0-9]*[a-z0-9])?`, NO 63 limit per label:
+that is what the subdomain regexp of apimachinery says) -/
+def dnsSubdomain (s : Str) : Bool :=
+  s.length ≤ 253 && (splitDots s).all (fun l =>
+    !l.isEmpty && l.all (fun c => isAlnumLower c || c == '-') &&
+    (l.head?.map isAlnumLower).getD false && (l.getLast?.map isAlnumLower).getD false)
+
+/-- a Gateway key the API server admits: namespace = DNS-1123 label, name = DNS-1123 subdomain -/
+def dnsKey (k : Key) : Bool := dnsLabel k.ns && dnsSubdomain k.name
 
 /-! ### ensureDeploymentsMatchGateways -/
 
